@@ -30,6 +30,17 @@ ASSUMPTIONS = [
 ]
 
 
+def session_names(n):
+    """member names of a session: ASCII, an astral-plane character (surrogate pair in UTF-16), BMP non-ASCII, a space"""
+    pool = ["d0/m0.bin", "d1/\U0001F600m1.bin", "d0/\u00e9\u4e2d 2", "d1/m3.bin", "d0/\U00020000.x", "m5"]
+    return [pool[i % len(pool)] if i < len(pool) else "d%d/m%d.bin" % (i % 2, i) for i in range(n)]
+
+
+def u16(name):
+    b = name.encode("utf-16LE")
+    return [b[i] | (b[i + 1] << 8) for i in range(0, len(b), 2)]
+
+
 def mk_engine(nstages=1, unroll=16):
     eng = Engine([AI, PZ, "py7zr.helpers", REF], intmode="bv", unroll=unroll)
     tokens.install(eng, [(AI, "write_uint64", "read_uint64"), (REF, None, "rd_number")])
@@ -65,7 +76,7 @@ def session_header(pattern, nstages=1):
         "%s=%s" % (k, KINDS[k]) for k in sorted(set(pattern))), nstages))
     eng, st = mk_engine(nstages)
     sizes = [eng.sym_int("size%d" % i, 40) for i in range(n)]
-    names = ["d%d/m%d.bin" % (i % 2, i) for i in range(n)]
+    names = session_names(n)
 
     def harness(e):
         st.pop("compressors", None)
@@ -92,7 +103,7 @@ def session_header(pattern, nstages=1):
         comp = o["comps"][0] if o["comps"] else None
         for i, k in enumerate(pattern):
             f = files[i]
-            c.append(f.get("name_units") == [ord(ch) for ch in names[i]])
+            c.append(f.get("name_units") == u16(names[i]))
             c.append(f["emptystream"] == (k == "d"))
             c.append(f.get("attributes") is not None)
             c.append(f.get("mtime") is not None)
